@@ -301,6 +301,7 @@ func c10Stream(r *core.Run, i int) *gen.Stream {
 func runC10(r *core.Run) {
 	r.Rule("for each generated stream (junk + 1..2 goroutine dumps / race reports, 0.2-4 KB): EVERY byte offset as the cut x 3 ways of signalling it (EOF; sticky reader error after the data; reader error returned together with the last data); " +
 		"the resume protocol is driven to its first error; oracle: no panic, reader error reported as exactly that value, EOF as EOF or a parse error, goroutines entirely before the cut equal (names aside) to the uncut parse, at most one partial goroutine, forwarded bytes a prefix of the uncut run's " +
+		"real tracebacks of generated programs with their sources on disk are cut at every offset too, scanned with path guessing and source analysis on; " +
 		"(or, when the cut lies before a dump's recognition point, the delivered fragment itself, as C02 demands). distinct = (stream, offset, mode); non-trivial = cut inside a dump")
 	r.Assume("a cut inside the first line of a dump (first three lines of a race report) leaves text that is not a dump; it must be passed through (C02), which a literal reading of C10's last sentence would flag")
 	n := r.N(60, 5000)
@@ -330,6 +331,7 @@ func runC10(r *core.Run) {
 		}
 	})
 	r.Exhaustive(true)
+	c10Sources(r)
 	webCutRounds(r, r.N(2, 10))
 	if !r.Quick() {
 		straceFaults(r, 6)
